@@ -10,6 +10,7 @@ import builtins
 import copy as _copy
 import math
 
+import ast
 import numpy as np
 import z3
 
@@ -1554,6 +1555,23 @@ def np_mean(interp, args, kw):
     return Sym(se / z3.ToReal(ne))
 
 
+def np_binary_ufunc(sym):
+    """np.add / subtract / multiply / divide (true_divide) with the optional out= argument."""
+    def f(interp, args, kw):
+        a, b = args[0], args[1]
+        out = kw.get("out", args[2] if len(args) > 2 else None)
+        if isinstance(out, tuple):
+            out = out[0]
+        if out is not None:
+            if out is a:
+                return interp.binop({"+": ast.Add, "-": ast.Sub, "*": ast.Mult, "/": ast.Div}[sym], a, b, inplace=True)
+            r = interp.binop({"+": ast.Add, "-": ast.Sub, "*": ast.Mult, "/": ast.Div}[sym], a, b)
+            setitem(interp, out, slice(None, None, None), r)
+            return out
+        return interp.binop({"+": ast.Add, "-": ast.Sub, "*": ast.Mult, "/": ast.Div}[sym], a, b)
+    return f
+
+
 def np_size(interp, args, kw):
     return as_len(interp, args[0])
 
@@ -1684,6 +1702,11 @@ def install(interp):
     m[np.amax] = np_extreme("max")
     m[np.sort] = np_sort
     m[np.arange] = np_arange
+    m[np.add] = np_binary_ufunc("+")
+    m[np.subtract] = np_binary_ufunc("-")
+    m[np.multiply] = np_binary_ufunc("*")
+    m[np.divide] = np_binary_ufunc("/")
+    m[np.true_divide] = np_binary_ufunc("/")
     m[np.mean] = np_mean
     m[np.logspace] = np_logspace
     m[np.log10] = unary_real(LOG10, np.log10)
